@@ -45,6 +45,14 @@ const CORPUS: &[(&str, &str)] = &[
         "return at top level, more blocks after it",
         "Say \"a\"\nGive back 1\nSay \"not reached in this block\"\n\n\nSay \"first of block two\"\nSay \"second of block two\"\n\n\nIf true\nSay \"block three\"\n\n",
     ),
+    (
+        "list on the right of a plain assignment, after output",
+        "Say \"before\"\nLet Total be 1, 2\nSay \"after\"\n",
+    ),
+    (
+        "list on the right of a plain assignment, never reached",
+        "Say \"start\"\nIf false\nLet Total be 1, 2, 3\n\nPut 4 into Total\nSay Total\n",
+    ),
     ("empty", ""),
     ("only blank lines", "\n\n\n"),
     ("hello", "Say \"Hello, World!\"\n"),
@@ -101,6 +109,8 @@ enum FileVia {
 }
 
 struct WorldSpec {
+    /// the working directory has been removed by the time the tool runs
+    removed_cwd: bool,
     /// (standard input is a terminal, standard output is a terminal)
     tty: (bool, bool),
     file_via: FileVia,
@@ -186,6 +196,20 @@ fn gen_world(t: &mut Tape) -> WorldSpec {
         for i in 0..n {
             stdin.extend_from_slice(format!("bulk line number {} of the large input\n", i).as_bytes());
         }
+    }
+    // a first line of the kind files get from tools: an interpreter line,
+    // an editor mode line, a comment
+    if t.chance(1, 20) && source_kind != "parse error on a chosen line" {
+        let mut pre = (*t.pick(&[
+            "#!/usr/bin/env rrss\n",
+            "#!/usr/local/bin/rrss exec\n",
+            "(-*- mode: rockstar -*-)\n",
+            "# a song\n",
+        ]))
+        .as_bytes()
+        .to_vec();
+        pre.extend_from_slice(&source);
+        source = pre;
     }
     // a separate first top-level block that says and listens (two blank
     // lines end it): whatever follows - also a syntax error - is another block
@@ -344,7 +368,14 @@ fn gen_world(t: &mut Tape) -> WorldSpec {
             stdin_not_utf8 = false;
         }
     }
+    let relative_path = t.chance(1, 2);
+    let removed_cwd = tty == (false, false)
+        && !relative_path
+        && file_via != FileVia::DevStdinPipe
+        && std::path::Path::new("/bin/sh").exists()
+        && t.chance(1, 20);
     WorldSpec {
+        removed_cwd,
         tty,
         file_via,
         sub,
@@ -354,7 +385,7 @@ fn gen_world(t: &mut Tape) -> WorldSpec {
         loop_free,
         fault,
         file_name,
-        relative_path: t.chance(1, 2),
+        relative_path,
         stdin,
         stdin_not_utf8,
         missing_name_not_utf8: t.chance(1, 3),
@@ -758,6 +789,7 @@ impl Property for C20 {
             },
             stdin_kind: w.stdin_kind,
             shared_out_err: false,
+            removed_cwd: w.removed_cwd,
         };
         let (sep, shared) = if w.tty != (false, false) {
             match procworld::run_pty(&spec, &scratch, "pty", w.tty.0, w.tty.1) {
@@ -855,6 +887,10 @@ impl Property for C20 {
         }
         stats.inc(&format!("count.stdin_kind.{:?}", w.stdin_kind));
         stats.inc(&format!("count.file_via.{:?}", w.file_via));
+        if w.removed_cwd {
+            stats.inc("fault.configured.working_directory_removed");
+            stats.inc("fault.fired.working_directory_removed");
+        }
         let _ = w.loop_free;
 
         let obs_hash = {
@@ -890,6 +926,7 @@ impl Property for C20 {
                 ("environment", J::A(spec.env.iter().map(|(k, v)| J::s(format!("{}={}", k, v))).collect())),
                 ("file_fault", J::s(format!("{:?}", w.fault))),
                 ("file_reached_via", J::s(format!("{:?}", w.file_via))),
+                ("working_directory_removed", J::Bool(w.removed_cwd)),
                 ("stdin_is_terminal", J::Bool(w.tty.0)),
                 ("stdout_is_terminal", J::Bool(w.tty.1)),
                 ("source_kind", J::s(w.source_kind)),
